@@ -19,7 +19,7 @@ SOURCES = ['src/dtaidistance/dtw.py', 'src/dtaidistance/dtw_cc.pyx', 'src/DTAIDi
 FUNCTIONS = ['dtw.warping_paths', 'dd_dtw.c dtw_warping_paths, dtw_warping_paths_ndim, dtw_warping_paths_ndim_euclidean',
              'dtw_settings_wps_length/width, dtw_wps_parts', 'dtw_expand_wps, dtw_expand_wps_slice',
              'dtw_cc.pyx warping_paths (transcribed: direct-buffer decision)']
-BOUNDS = {'quick': {'r,c': '1..4 (data dependent control: 1..3)', 'window': 'all', 'psi': 'None, 1, tuples', 'penalty': 'None|symbolic',
+BOUNDS = {'quick': {'narrow band (C engine)': '5x4, 4x5, 6x5, 5x5 with windows 1..2 (unclamped compact width), penalty None|symbolic', 'r,c': '1..4 (data dependent control: 1..3)', 'window': 'all', 'psi': 'None, 1, tuples', 'penalty': 'None|symbolic',
                     'max_step / max_dist': 'symbolic, r,c <= 3', 'slices (C)': 'all prefix slices for r*c <= 2, 3 seeded ones for larger (slices with an offset: known finding F04-slice-offset)'},
           'thorough': {'r,c': '1..5 (data dependent control: r*c <= 12)', 'window': 'all', 'psi': 'None, 1, 2, tuples',
                        'penalty': 'None|symbolic', 'max_step / max_dist': 'symbolic', 'slices (C)': 'all for r,c <= 3, seeded for larger'}}
@@ -97,6 +97,18 @@ def tasks(tier, seed):
                         chunk, est = [], 0
                 if chunk:
                     ts.append({'harness': 'wps/%s/%s' % (eng, kind), 'eng': eng, 'kind': kind, 'r': r, 'c': c, 'opts': jnum(chunk), 'est': est})
+    # longer series with a narrow band (C engine): all four row regions of the compact layout exist and the width is not clamped
+    base = {'window': None, 'pen': False, 'psi': None, 'step': False, 'md': False, 'keep': True, 'neg': True}
+    for r, c in ((5, 4), (4, 5), (6, 5), (5, 5)) + (((6, 6), (7, 5), (5, 7)) if tier == 'thorough' else ()):
+        chunk = []
+        for w in (1, 2):
+            if abs(r - c) + 2 * w + 1 >= c + 1:
+                continue
+            for pen in (False, True):
+                chunk.append(dict(base, window=w, pen=pen, keep=pen))
+        for kind in ('sq', 'abs'):
+            if chunk:
+                ts.append({'harness': 'wps/c/%s' % kind, 'eng': 'c', 'kind': kind, 'r': r, 'c': c, 'opts': jnum(chunk), 'est': 40 * r * c})
     for t in ts:
         t['tier'], t['seed'] = tier, seed
     ts.sort(key=lambda t: -t['est'])
